@@ -71,6 +71,11 @@ BODIES = [
     ("empty", "application/json", b""),
     ("html", "text/html; charset=utf-8", b"<h1>Bad gateway</h1>"),
     ("no-ctype", "", b"plain"),
+    # bodies that error handling must survive whatever it does with the text: long, multi-byte characters at round byte offsets, not UTF-8, binary
+    ("long-utf8", "text/html; charset=utf-8", b"a" * 2047 + "\u00e9\u20ac\U0001f600".encode() * 700),
+    ("long-utf8-odd", "text/html", b"a" * 1023 + "\u20ac".encode() * 2000),
+    ("latin1-no-charset", "text/html", "caf\u00e9 cr\u00e8me".encode("latin-1")),
+    ("binary", "application/octet-stream", bytes(range(256))),
     # response headers that error handling might look at, in every legal spelling
     ("retry-after-date", "application/json", b'{"message": "slow down"}', {"Retry-After": "Wed, 21 Oct 2015 07:28:00 GMT"}),
     ("retry-after-seconds", "application/json", b'{"message": "slow down"}', {"Retry-After": "120"}),
